@@ -12,7 +12,7 @@ theorem take_drop_getD (l : List Bool) (off len i : Nat) :
 
 /-- the payload bits `[off, off+len)` hold the parameter's code (its low `len` bits) -/
 theorem fieldValue_eq (P : Pair) (f : PubField) (o : Nat) (params : Nat → Nat)
-    (h : bitsAgree P f o = true) (hlt : params o < 2 ^ P.W o) :
+    (h : bitsAgree P f o = true) (hlt : params o < 2 ^ pubW P f o) :
     fieldValue (encode P.setterBits params) f.off f.len = params o % 2 ^ f.len := by
   simp only [bitsAgree, List.all_eq_true, List.mem_range, Bool.or_eq_true, Bool.and_eq_true, beq_iff_eq,
     decide_eq_true_eq] at h
@@ -28,6 +28,22 @@ theorem fieldValue_eq (P : Pair) (f : PubField) (o : Nat) (params : Nat → Nat)
     · simp only [encode, Pair.setterBits, List.getD_eq_getElem?_getD, List.getElem?_map, hb, Option.map_some,
         Option.getD_some, srcVal]
       exact (testBit_high hlt hW).symm
+  · simp [hi]
+
+/-- a field that agrees with a constant holds that constant (its low `len` bits), whatever the parameters -/
+theorem constValue_eq (P : Pair) (f : PubField) (v : Nat) (params : Nat → Nat) (h : constAgree P f v = true) :
+    fieldValue (encode P.setterBits params) f.off f.len = v % 2 ^ f.len := by
+  simp only [constAgree, List.all_eq_true, List.mem_range, beq_iff_eq] at h
+  apply Nat.eq_of_testBit_eq
+  intro i
+  rw [fieldValue, ofBits_testBit, take_drop_getD, Nat.testBit_mod_two_pow]
+  by_cases hi : i < f.len
+  · simp only [hi, ↓reduceIte, decide_true, Bool.true_and]
+    have hb := h i hi
+    rw [srcAt_eq] at hb
+    simp only [encode, Pair.setterBits, List.getD_eq_getElem?_getD, List.getElem?_map, hb, Option.map_some,
+      Option.getD_some]
+    cases v.testBit i <;> rfl
   · simp [hi]
 
 end N2k.Spec
